@@ -577,7 +577,7 @@ pub fn run(which: &str, mut run: Run) -> ! {
     crate::core::silence_panics();
     run.isolate = true;
     run.case_timeout_s = 3.0;
-    run.rule = "every member of each finite LinearModel family (mixed-radix product of domain/coefficient/relation/rhs/objective menus, plus named specials) is built through the public LinearModel API and sent to every built-in solver entry point that accepts it; distinct = canonical model text; non-trivial = feasible-and-bounded per the exact oracle with at least one row".into();
+    run.rule = "every member of each finite LinearModel family (mixed-radix product of domain/coefficient/relation/rhs/objective menus, plus named specials, plus the linear models the compiler produces for the C02 objective families) is built through the public LinearModel API and sent to every built-in solver entry point that accepts it; distinct = canonical model text; non-trivial = feasible-and-bounded per the exact oracle with at least one row".into();
     run.assume("exact rational LP/MILP oracle (two-phase Bland simplex over BigRational + integer box enumeration), cross-checked against vertex enumeration in family oracle-selfcheck");
     run.assume("well-scaled coefficients only (|c| in [0.25,125]); tolerance 1e-6 relative as stated in the property");
     run.assume("small-scope hypothesis: n<=4 variables, m<=4 rows");
@@ -604,6 +604,36 @@ pub fn run(which: &str, mut run: Run) -> ! {
         run.family(fam.name, fam.size(), move |i, l| {
             let spec = f2.get(i);
             judge(&spec, &w, l);
+        });
+    }
+    // linear models as the compiler produces them (auxiliaries, big-M rows, selector equalities,
+    // published derived bounds): objective models of the C02 family and the multi-variable family D
+    {
+        let w = which_s.clone();
+        let n = crate::props::c02::family_size_pub(1, true);
+        run.family("K-compiled-objective-models", n, move |i, l| {
+            let case = crate::props::c02::family_pub(i, 1, true);
+            match crate::core::catch(|| case.model.compile()) {
+                Ok(Ok(lm)) => match LmSpec::from_rooc(&lm) {
+                    Some(spec) => {
+                        l.count("compiled-models");
+                        judge(&spec, &w, l);
+                    }
+                    None => l.count("compiled-models:strict-rows"),
+                },
+                _ => l.count("compiled-models:rejected"),
+            }
+        });
+        let w = which_s.clone();
+        let nd = crate::props::c02::family_d_size(0);
+        run.family("KD-compiled-multi-variable-models", nd, move |i, l| {
+            let case = crate::props::c02::family_d(i, 0);
+            if let Ok(Ok(lm)) = crate::core::catch(|| case.model.compile()) {
+                if let Some(spec) = LmSpec::from_rooc(&lm) {
+                    l.count("compiled-models");
+                    judge(&spec, &w, l);
+                }
+            }
         });
     }
     for s in ["milp:ok", "milp:infeasible", "milp:unbounded", "clarabel:ok", "simplex:ok", "microlp_real:ok", "auto:ok", "oracle:optimal", "oracle:infeasible", "oracle:unbounded"] {
